@@ -106,6 +106,14 @@ theorem entry_zero_without_common_support {α : Type} [AddCommMonoid α] {Jet : 
     combine N (fun q => integrand (jetU q) (jetV q) q) = 0 :=
   entryImpl2_disjoint suppU suppV N jetU jetV integrand hlinU hlinV hU hV hfU hfV hempty
 
+/-- the strictness of the support test is unobservable: `if intv.a > intv.b: return` computes, for
+all supports, offsets and kernels, the same entry as the coded `if intv.a >= intv.b: return` (an axis
+with `a = b` has no nodes, the loop nest runs zero times).  This is why the mutation `>=` → `>` has
+no failing input. -/
+theorem support_test_strictness_unobservable {α : Type} [AddCommMonoid α]
+    (suppU suppV : List Intv) (ofs : List Nat) (K : List Nat → α) :
+    entryImpl2Gt suppU suppV ofs K = entryImpl2 suppU suppV ofs K := entryImpl2Gt_eq suppU suppV ofs K
+
 /-- the same for linear forms (arity 1) -/
 theorem entry1_eq_full_sum {α : Type} [AddCommMonoid α] {Jet : Type} [Zero Jet]
     (supp : List Intv) (N : List Nat) (jet : List Nat → Jet) (integrand : Jet → List Nat → α)
